@@ -84,7 +84,7 @@ def main(argv):
     if argv[0] == "--replay":
         return replay(argv[1])
     if argv[0] == "--dev-kani":      # development aid: run every harness of one /verif/kani/<file>.rs (optionally filtered by substring)
-        hs = [h for h in kani_run.load_registry() if h.file == argv[1] and (len(argv) < 3 or argv[2] in h.full)]
+        hs = [h for h in kani_run.load_registry() if (h.file == argv[1] or argv[1] == "ALL" or (argv[1] == "QUICK" and h.tier == "quick")) and (len(argv) < 3 or argv[2] in h.full)]
         res, raw, cmd, wall = kani_run.run_batch(hs)
         write(os.path.join(CACHE, "logs", "dev-kani.log"), raw)
         bad = 0
